@@ -143,7 +143,38 @@ def type_specs(draw):
     if mx != "unbounded" and mn > mx:
         mn = mx
     ts["occ"] = {"min": mn, "max": mx, "nillable": draw(st.booleans())}
+    if mn == 0 and mx == 1 and ts["k"] == "prim" and draw(st.integers(0, 3)) == 0:
+        # a declared default (a value that satisfies the facets): says nothing about which
+        # requests are valid, but is published in the schema next to nillable / minOccurs
+        d = _default_for(ts)
+        if d is not None:
+            ts["f"] = dict(ts["f"], default=jv.enc(d))
     return ts
+
+
+def _default_for(ts):
+    k = PRIM_KIND[ts["t"]]
+    f = {a: jv.dec(b) for a, b in ts.get("f", {}).items()}
+    cands = []
+    if k in ("int", "dec", "double"):
+        conv = {"int": int, "dec": D, "double": float}[k]
+        for key in ("ge", "gt", "le", "lt"):
+            if key in f:
+                cands += [f[key], f[key] + conv(1), f[key] - conv(1)]
+        cands += [conv(0), conv(1), conv(5)]
+    elif k == "text":
+        cands = list(f.get("values", [])) + [m for pat in ([f["pattern"]] if "pattern" in f else [])
+                                             for m in PAT[pat][0]]
+        cands += ["a" * n for n in (f.get("min_len", 1), 1, 3)]
+    elif k == "bool":
+        cands = [True]
+    for c in cands:
+        try:
+            if valid_value(dict(ts, f={a: b for a, b in ts["f"].items() if a != "default"}), c):
+                return c
+        except Exception:
+            continue
+    return None
 
 
 def kind_of(ts):
